@@ -20,5 +20,10 @@ func init() {
 			Old: "\t\tserializedBytes = paddedAppend(32, serializedBytes, k.key)\n", New: "\t\tpadded := make([]byte, 32)\n\t\tcopy(padded[32-len(k.key):], k.key)\n\t\tserializedBytes = append(serializedBytes, padded...)\n"},
 		{Name: "entropy padded through a differently named local", Kill: false, File: fMnemonic,
 			Old: "\tentropy := b.Bytes()\n\tentropy = padByteSlice(entropy, len(mnemonicSlice)/3*4)\n", New: "\traw := b.Bytes()\n\tentropy := padByteSlice(raw, len(mnemonicSlice)/3*4)\n"},
+		{Name: "mnemonic entropy padded to a width derived from its own length (seed C18-r2c)", Kill: true, Rule: "C18-WIDTH", File: "poc/wallet/keystore/mnemonic.go",
+			Old: "\tentropy = padByteSlice(entropy, len(mnemonicSlice)/3*4)\n", New: "\tentropy = padByteSlice(entropy, (len(entropy)+3)/4*4)\n"},
+		{Name: "parent fingerprint memoised and shared with the children (seed C18-r2b)", Kill: true, Rule: "C18-OWN", File: "poc/wallet/keystore/hdkeychain/extendedkey.go",
+			Old: "\tparentFP := massutil.Hash160(k.pubKeyBytes())[:4]\n", New: "\tif len(k.parentFPMemo) == 0 {\n\t\tk.parentFPMemo = massutil.Hash160(k.pubKeyBytes())[:4]\n\t}\n\tparentFP := k.parentFPMemo\n",
+			File2: "poc/wallet/keystore/hdkeychain/extendedkey.go", Old2: "\tpubKey    []byte // This will only be set for extended priv keys\n", New2: "\tpubKey    []byte // This will only be set for extended priv keys\n\tparentFPMemo []byte\n"},
 	}
 }
